@@ -1326,12 +1326,28 @@ func impliedByNilError(v ssa.Value) []EdgeFact {
 	first := true
 	for _, b := range h.Blocks {
 		ret, ok := b.Instrs[len(b.Instrs)-1].(*ssa.Return)
-		if !ok || len(ret.Results) != res.Len() || !isNilConst(ret.Results[idx]) {
+		if !ok || len(ret.Results) != res.Len() {
 			continue
+		}
+		rv := ret.Results[idx]
+		var extra *EdgeFact
+		if !isNilConst(rv) {
+			// a return that hands on a value (`return st.writeErr`): it cannot be the one taken if that value is provably
+			// non-nil; otherwise, on this return, the value itself was nil
+			if nn, _ := nonNilError(rv, ret, 0); nn {
+				continue
+			}
+			if _, isPhi := stripConv(rv).(*ssa.Phi); isPhi {
+				return nil
+			}
+			extra = &EdgeFact{rv, false} // an error-typed "condition": false = is nil (see cmpFact)
 		}
 		fs := dominatingFacts(b)
 		for i := range fs {
 			fs[i] = normFact(fs[i])
+		}
+		if extra != nil {
+			fs = append(fs, *extra)
 		}
 		if first {
 			common, first = fs, false
@@ -1355,6 +1371,14 @@ func impliedByNilError(v ssa.Value) []EdgeFact {
 func cmpFact(f EdgeFact) (ssa.Value, token.Token, ssa.Value, bool) {
 	b, ok := f.Cond.(*ssa.BinOp)
 	if !ok {
+		// an error-typed value as "condition" (impliedByNilError): true = non-nil, false = nil
+		if f.Cond != nil && f.Cond.Type() != nil && types.TypeString(f.Cond.Type(), nil) == "error" {
+			op := token.EQL
+			if f.True {
+				op = token.NEQ
+			}
+			return f.Cond, op, nilErrorConst(f.Cond.Type()), true
+		}
 		return nil, 0, nil, false
 	}
 	op := b.Op
@@ -2036,4 +2060,13 @@ func fieldReadOf(v ssa.Value) (int, ssa.Value) {
 		}
 	}
 	return -1, nil
+}
+
+var nilErrConst *ssa.Const
+
+func nilErrorConst(t types.Type) *ssa.Const {
+	if nilErrConst == nil {
+		nilErrConst = ssa.NewConst(nil, t)
+	}
+	return nilErrConst
 }
